@@ -5,9 +5,11 @@
    No Extract Constant / Extract Inductive of our own. *)
 Require Extraction.
 Require Import ExtrOcamlBasic.
-From Otter Require Import Base Sketch.
+From Otter Require Import Base Sketch Seq Spec.
 (* run with cwd = /verif/ocaml: the extracted files land in the current directory *)
 Extraction "model.ml"
   Base.wrapu Base.wraps Base.satadd Base.abs64
   Sketch.spread Sketch.rehash Sketch.roundup64 Sketch.roundup32
-  Sketch.sketch0 Sketch.tbl Sketch.sample Sketch.bmask Sketch.ssize Sketch.inited Sketch.frequency Sketch.increment Sketch.reset Sketch.ensure_capacity Sketch.accept.
+  Sketch.sketch0 Sketch.tbl Sketch.sample Sketch.bmask Sketch.ssize Sketch.inited Sketch.frequency Sketch.increment Sketch.reset Sketch.ensure_capacity Sketch.accept
+  Seq.step Seq.cstate0 Seq.lookup Seq.get_node_quietly Seq.node_to_entry Seq.has_expired Seq.live_pairs
+  Seq.cmap Seq.cst Seq.mkState Seq.upd_map Seq.remove Spec.spec_step Spec.purge_st.
